@@ -140,6 +140,21 @@ class World:
             a, b = self.view(e["g"]), self.view(e["h"])
             r = {"+": lambda: a + b, "-": lambda: a - b, "*": lambda: a * b, "^": lambda: a ^ b}[e["o"]]()
             e["res"] = [v.abs_triple(t) for t in r]
+        elif op == "read":
+            from . import reads
+            kind, arg, tgt = e["kind"], e.get("arg", ""), e.get("g", "D")
+            vals = []
+            for _ in range(2):
+                try:
+                    vals.append(("ok", reads.do_read(self, kind, arg, tgt)))
+                except Exception as ex:  # noqa: BLE001
+                    vals.append(("raise", type(ex).__name__))
+            d1, d2 = reads.stable_digest(kind, arg, vals[0]), reads.stable_digest(kind, arg, vals[1])
+            if d1 != d2 and kind in ("ser_ds", "ser_view") and vals[0][0] == "ok" and vals[1][0] == "ok":
+                d1, d2 = reads.meaning_digest(kind, arg, vals[0][1]), reads.meaning_digest(kind, arg, vals[1][1])
+            e["v1"], e["v2"] = d1, d2
+            if vals[0][0] == "raise":
+                e["raised"] = vals[0][1]
         elif op == "open":
             self.iters[e["it"]] = self.view(e["g"]).triples(v.triple(e["pat"]))
         elif op == "next":
@@ -155,7 +170,16 @@ class World:
             raise ValueError("unknown op " + op)
 
     # -- observation
+    def observe_light(self):
+        """state only: quads and graph set (C13 purity checks)"""
+        v, ds = self.v, self.ds
+        o = {"quads": [v.abs_triple(q) + [v.gabs(q[3])] for q in ds.quads()]}
+        o["graphs"] = [v.gabs(g) for g in (ds.graphs() if self.facade == "dataset" else ds.contexts())]
+        return o
+
     def observe(self):
+        if self.cfg.get("obs_kind") == "light":
+            return self.observe_light()
         v = self.v
         o = {}
         names = list(self.cfg["names"])
